@@ -112,6 +112,9 @@ pub fn dict0() -> GDict {
             d.add(GDef { code, vendor, name: format!("Set{}v{}", code, k), ty: *ty, m: k % 2 == 0 });
         }
     }
+    // names are text: long ones, with characters of several octets around the 40th octet (where a table column might end)
+    d.add(GDef { code: 320, vendor: None, name: "Teilnehmer-Verbindungs-Abrechnungs-Gebühr-Kennung".into(), ty: T_UTF8, m: false });
+    d.add(GDef { code: 321, vendor: Some(99), name: "加入者接続課金識別子-加入者接続課金識別子-加入者接続課金".into(), ty: T_GROUPED, m: false });
     // two definitions that share a name (different pair, different type): a name identifies nothing, the pair does
     d.add(GDef { code: 310, vendor: Some(111), name: "Shared-Name".into(), ty: T_U64, m: true });
     d.add(GDef { code: 311, vendor: None, name: "Shared-Name".into(), ty: T_UTF8, m: false });
@@ -326,7 +329,7 @@ impl GM {
 /* ---------- value generation ---------- */
 
 // (byte-order mark, NUL, DEL, a noncharacter, a combining mark, a right-to-left mark, line ends: all well-formed UTF-8)
-const TEXT_ATOMS: [&str; 22] = ["a", "Z", "0", ".", "-", ";", "é", "ß", "€", "世", "𝄞", " ", "\u{feff}", "\0", "\u{7f}", "\u{ffff}", "\u{301}", "\u{200f}", "\r\n", "\t", "\u{fffd}", "\u{10ffff}"];
+const TEXT_ATOMS: [&str; 26] = ["a", "Z", "0", ".", "-", ";", "é", "ß", "€", "世", "𝄞", " ", "\u{feff}", "\0", "\u{7f}", "\u{ffff}", "\u{301}", "\u{200f}", "\r\n", "\t", "\u{fffd}", "\u{10ffff}", "xn--999999999999.", "xn--bcher-kva.", "xn--", "XN--zzzzzzzzzzzz9"];
 
 pub fn text(r: &mut Rng, nbytes: usize) -> String {
     // exactly nbytes octets of well-formed UTF-8
@@ -381,10 +384,15 @@ pub fn edge_f32(r: &mut Rng) -> u32 {
 }
 pub fn edge_f64(r: &mut Rng) -> u64 {
     const E: [u64; 8] = [0, 0x8000000000000000, 0x7ff0000000000000, 0xfff0000000000000, 0x7ff8000000000000, 0x7ff0000000000001, 0xfff8000000000123, 1];
-    if r.chance(1, 2) {
-        *r.pick(&E)
-    } else {
-        r.next()
+    match r.below(4) {
+        0 | 1 => *r.pick(&E),
+        // decimal round numbers: one significant digit, very large and very small exponents (what a pretty-printer in
+        // scientific notation meets), whole numbers, halves
+        2 => {
+            let x: f64 = *r.pick(&[1e300, -1e300, 1e22, 1e16, 1e15, 1e-5, 1e-7, 1e-300, 5e-324, 1e308, 123456789.0, 0.5, 2.0, 1e21, 9.999999999999999e22]);
+            x.to_bits()
+        }
+        _ => r.next(),
     }
 }
 /// unix seconds of a Time the wire can carry
@@ -468,7 +476,8 @@ pub fn leaf(r: &mut Rng, ty: usize, len: Option<usize>) -> GV {
         T_F64 => GV::F64(edge_f64(r)),
         T_I32 => GV::I32(edge_u32(r) as i32),
         T_I64 => GV::I64(edge_u64(r) as i64),
-        T_OCT => GV::Oct(r.bytes(n)),
+        // (now and then an opaque token that starts like text: a readable head of 32 or more octets, binary behind it)
+        T_OCT => GV::Oct(if len.is_none() && r.chance(1, 8) { let mut b = b"session-token/user=alice;realm=example.org;".to_vec(); b.extend(r.bytes(1 + (n % 9))); b.extend([0x9c, 0xff, 0x00, 0x81, 0xfe, 0xc0]); b } else { r.bytes(n) }),
         T_TIME => GV::Time(time_in_range(r), 0),
         T_U32 => GV::U32(edge_u32(r)),
         T_U64 => GV::U64(edge_u64(r)),
@@ -1682,7 +1691,8 @@ fn gen_c05(o: &mut Out, r: &mut Rng, d: &GDict, tier: &str) {
     let tdef = d.by_type(T_TIME)[0].clone();
     for &t in times.iter() {
         for nest_depth in [0usize, 1, 3] {
-            for nanos in [0u32, 999_999_999] {
+            // (nanoseconds of 10^9 and more: chrono's notation for a leap second - the second itself is still `t`)
+            for nanos in [0u32, 999_999_999, 500_000_000, 1_000_000_000, 1_999_999_999] {
                 o.case(&format!("time {} depth={}", t, nest_depth));
                 let a = GA { code: tdef.code, vendor: tdef.vendor, flags: 0x40, v: GV::Time(t, nanos) };
                 let mut m = header(r);
